@@ -1,0 +1,39 @@
+//go:build verif
+
+// Machine-checked contracts for package ast (comment-only; see /verif/DESIGN.md).
+
+package ast
+
+//@ func NewName
+//@   props C03
+//@   requires node != nil
+//@   assigns class:ast.Name.Kind
+//@   nopanic
+//@   ensures result == node
+
+//@ func NewNamed
+//@   props C03
+//@   requires t != nil
+//@   assigns class:ast.Named.Kind
+//@   nopanic
+//@   ensures result == t
+
+//@ func NewList
+//@   props C03
+//@   assigns nothing
+//@   nopanic
+//@   ensures result != nil && fresh(result)
+//@   ensures t != nil ==> result.Type == t.Type && result.Loc == t.Loc
+
+//@ func NewNonNull
+//@   props C03
+//@   assigns nothing
+//@   nopanic
+//@   ensures result != nil && fresh(result)
+//@   ensures t != nil ==> result.Type == t.Type && result.Loc == t.Loc
+
+//@ func NewLocation
+//@   trusted
+//@   assigns nothing
+//@   ensures result != nil && fresh(result)
+//@   ensures loc != nil ==> result.Start == loc.Start && result.End == loc.End && result.Source == loc.Source
